@@ -1,11 +1,391 @@
 //! Reveal-transaction generator (inscription envelopes).
+//!
+//! Envelopes are assembled byte by byte so that every shape named by the
+//! properties can be produced: clean ones (through ord's own
+//! `append_reveal_script_to_builder`), pointers inside/outside the output
+//! range / with trailing zeros / over eight bytes, duplicate, incomplete,
+//! unrecognised even/odd fields, pushnum opcodes, stutter, delegates, parents
+//! of every kind, zero-value inputs, several envelopes and inputs.
 
-use crate::{blockgen::{Avail, Gen}, model::Model, rng::Rng};
-use bitcoin::Transaction;
+use crate::{
+  blockgen::{Avail, Gen},
+  model::Model,
+  rng::Rng,
+};
+use bitcoin::{Amount, ScriptBuf, Transaction, TxOut, Txid, Witness, script};
+use ord::{Inscription, InscriptionId};
+use std::collections::BTreeSet;
 
 #[derive(Default)]
-pub struct InscGen {}
+pub struct InscGen {
+  /// reveal transactions whose first envelope of the first input was built
+  /// clean (ground truth for C06): no pointer, no pushnum, no stutter, no
+  /// duplicate / incomplete / unrecognised-even field
+  pub clean_first: BTreeSet<Txid>,
+  /// hidden by content according to the generator (text / unknown media)
+  pub recent_ids: Vec<InscriptionId>,
+}
 
-pub fn reveal(_g: &mut Gen, _rng: &mut Rng, _avail: &mut Vec<Avail>, _model: &Model, _height: u32) -> Option<Transaction> {
-  None
+pub fn push(script: &mut Vec<u8>, data: &[u8]) {
+  let len = data.len();
+  if len <= 75 {
+    script.push(len as u8);
+  } else if len <= 255 {
+    script.extend([0x4c, len as u8]);
+  } else if len <= 65535 {
+    script.push(0x4d);
+    script.extend((len as u16).to_le_bytes());
+  } else {
+    script.push(0x4e);
+    script.extend((len as u32).to_le_bytes());
+  }
+  script.extend(data);
+}
+
+/// The 32/36-byte value encoding of an inscription id (txid LE bytes + index
+/// LE without trailing zeros), written independently of ord's encoder.
+pub fn id_value(id: &InscriptionId) -> Vec<u8> {
+  use bitcoin::hashes::Hash;
+  let mut v = id.txid.to_byte_array().to_vec();
+  let idx = id.index.to_le_bytes();
+  let mut n = 4;
+  while n > 0 && idx[n - 1] == 0 {
+    n -= 1;
+  }
+  v.extend(&idx[..n]);
+  v
+}
+
+#[derive(Clone, Debug, PartialEq)]
+pub enum Kind {
+  Clean,
+  Pointer,
+  DupField,
+  Incomplete,
+  UnrecEven,
+  UnrecOdd,
+  Pushnum,
+  Stutter,
+  Odd, // odd shapes: no body, empty content type, nested, junk fields
+}
+
+pub struct EnvCtx<'a> {
+  pub total_out: u64,
+  pub output_starts: &'a [u64],
+  pub own_txid: Txid,
+  pub own_envelopes: u32,
+  pub input_ids: &'a [InscriptionId],
+  pub other_ids: &'a [InscriptionId],
+  /// positions in the input stream that already carry an inscription
+  pub inscribed_positions: &'a [u64],
+}
+
+fn content(rng: &mut Rng) -> (Option<Vec<u8>>, Option<Vec<u8>>) {
+  let ct: Option<&[u8]> = match rng.below(8) {
+    0 => None,
+    1 => Some(b"text/plain;charset=utf-8"),
+    2 => Some(b"image/png"),
+    3 => Some(b"application/json"),
+    4 => Some(b"text/html"),
+    5 => Some(b""),
+    6 => Some(b"\xff\xfe"),
+    _ => Some(b"image/svg+xml"),
+  };
+  let body = match rng.below(6) {
+    0 => None,
+    1 => Some(Vec::new()),
+    2 => Some(rng.bytes(600)), // two chunks
+    _ => {
+      let n = rng.usize(1, 40);
+      Some(rng.bytes(n))
+    }
+  };
+  (ct.map(|c| c.to_vec()), body)
+}
+
+fn parents(rng: &mut Rng, ctx: &EnvCtx, max: usize) -> Vec<Vec<u8>> {
+  let n = match rng.below(10) {
+    0..=4 => 0,
+    5..=7 => 1,
+    _ => rng.usize(2, 4),
+  }
+  .min(max);
+  let mut out = Vec::new();
+  for _ in 0..n {
+    let id = match rng.below(10) {
+      // held by this transaction's inputs
+      0..=3 if !ctx.input_ids.is_empty() => *rng.pick(ctx.input_ids),
+      // unrelated existing inscription
+      4 | 5 if !ctx.other_ids.is_empty() => *rng.pick(ctx.other_ids),
+      // revealed by this very transaction (earlier, same or later envelope)
+      6 | 7 => InscriptionId { txid: ctx.own_txid, index: rng.below(u64::from(ctx.own_envelopes) + 2) as u32 },
+      // absent
+      _ => InscriptionId { txid: ctx.own_txid, index: 1000 + rng.below(5) as u32 },
+    };
+    let mut v = id_value(&id);
+    match rng.below(12) {
+      0 => v.truncate(31),        // malformed
+      1 => v.extend([0, 0, 0]),   // trailing zeros (fixed width or malformed)
+      2 if v.len() == 32 => v.extend([0, 0, 0, 0]), // 4-byte fixed-width form of index 0
+      _ => {}
+    }
+    out.push(v);
+    if rng.chance(1, 6) && !out.is_empty() {
+      out.push(out[0].clone()); // duplicated parent
+    }
+  }
+  out
+}
+
+/// One envelope as script bytes (starting at OP_FALSE).
+pub fn envelope(rng: &mut Rng, kind: &Kind, ctx: &EnvCtx) -> Vec<u8> {
+  let (content_type, body) = content(rng);
+  if *kind == Kind::Clean {
+    // through ord's own builder, at most one parent and no chunked field
+    let inscription = Inscription {
+      content_type,
+      body,
+      parents: parents(rng, ctx, 1).into_iter().take(1).collect(),
+      delegate: if rng.chance(1, 6) {
+        let id = if !ctx.other_ids.is_empty() {
+          *rng.pick(ctx.other_ids)
+        } else if !ctx.input_ids.is_empty() {
+          *rng.pick(ctx.input_ids)
+        } else {
+          InscriptionId { txid: ctx.own_txid, index: 0 }
+        };
+        Some(id_value(&id))
+      } else {
+        None
+      },
+      metadata: if rng.chance(1, 6) { Some(rng.bytes(20)) } else { None },
+      metaprotocol: if rng.chance(1, 8) { Some(b"brc-20".to_vec()) } else { None },
+      ..Default::default()
+    };
+    return inscription.append_reveal_script_to_builder(script::Builder::new()).into_script().to_bytes();
+  }
+  let mut s = Vec::new();
+  if *kind == Kind::Stutter {
+    s.push(0x00);
+  }
+  s.extend([0x00, 0x63]);
+  push(&mut s, b"ord");
+  let mut fields: Vec<(Vec<u8>, Vec<u8>)> = Vec::new();
+  if let Some(ct) = &content_type {
+    fields.push((vec![1], ct.clone()));
+  }
+  for p in parents(rng, ctx, 4) {
+    fields.push((vec![3], p));
+  }
+  match kind {
+    Kind::Pointer => {
+      let p: u64 = match rng.below(12) {
+        // straight onto a sat that already carries an inscription (also in a later input)
+        9..=11 if !ctx.inscribed_positions.is_empty() => *rng.pick(ctx.inscribed_positions),
+        0 => 0,
+        1 if !ctx.output_starts.is_empty() => *rng.pick(ctx.output_starts),
+        2 if ctx.total_out > 0 => ctx.total_out - 1,
+        3 => ctx.total_out,
+        4 => ctx.total_out + rng.below(1000),
+        5 => u64::MAX,
+        _ if ctx.total_out > 0 => rng.below(ctx.total_out),
+        _ => 0,
+      };
+      let mut v = p.to_le_bytes().to_vec();
+      while v.last() == Some(&0) {
+        v.pop();
+      }
+      match rng.below(8) {
+        0 => v.extend([0, 0]),                    // trailing zeros
+        1 => v.resize(8.max(v.len()), 0),         // full width
+        2 => {
+          v.resize(8, 0);
+          v.extend([0, 0, 0]);                    // more than eight bytes, zero tail
+        }
+        3 => {
+          v.resize(8, 0);
+          v.push(1);                              // more than eight bytes, non-zero tail: invalid
+        }
+        _ => {}
+      }
+      fields.push((vec![2], v));
+    }
+    Kind::DupField => {
+      let tag = *rng.pick(&[1u8, 2, 5, 7, 9, 11, 15, 17]);
+      fields.push((vec![tag], rng.bytes(3)));
+      fields.push((vec![tag], rng.bytes(2)));
+    }
+    Kind::UnrecEven => {
+      let tag = *rng.pick(&[4u8, 6, 66, 100, 254, 0x10]);
+      let tagv = if rng.chance(1, 5) { vec![tag, 7] } else { vec![tag] };
+      fields.push((tagv, rng.bytes(2)));
+    }
+    Kind::UnrecOdd => {
+      let tag = *rng.pick(&[15u8, 21, 99, 255]);
+      fields.push((vec![tag], rng.bytes(2)));
+    }
+    Kind::Odd => match rng.below(4) {
+      0 => fields.clear(),
+      1 => {
+        let n = rng.below(40) as usize;
+        fields.push((vec![11], rng.bytes(n))) // junk delegate
+      }
+      2 => fields.push((vec![17], rng.bytes(30))),                      // junk properties
+      _ => fields.push((vec![5], rng.bytes(700))),                      // oversize single push
+    },
+    _ => {}
+  }
+  if rng.chance(1, 3) {
+    rng.shuffle(&mut fields);
+  }
+  for (i, (tag, value)) in fields.iter().enumerate() {
+    push(&mut s, tag);
+    if *kind == Kind::Pushnum && i == 0 {
+      // a small value through OP_PUSHNUM_n / OP_1NEGATE
+      s.push(*rng.pick(&[0x4fu8, 0x51, 0x52, 0x5a, 0x60]));
+    } else {
+      push(&mut s, value);
+    }
+  }
+  if *kind == Kind::Pushnum && fields.is_empty() {
+    s.push(0x51); // a pushnum as a tag, followed by its value
+    push(&mut s, b"x");
+  }
+  if *kind == Kind::Incomplete {
+    push(&mut s, &[*rng.pick(&[1u8, 5, 9, 15])]); // a tag without a value
+  } else if let Some(body) = &body {
+    s.push(0x00);
+    for chunk in body.chunks(520) {
+      push(&mut s, chunk);
+    }
+    if body.is_empty() && rng.chance(1, 2) {
+      s.push(0x00); // explicit empty body push
+    }
+  }
+  s.push(0x68);
+  s
+}
+
+fn pick_kind(rng: &mut Rng) -> Kind {
+  match rng.below(20) {
+    0..=7 => Kind::Clean,
+    8..=10 => Kind::Pointer,
+    11 => Kind::DupField,
+    12 => Kind::Incomplete,
+    13 | 14 => Kind::UnrecEven,
+    15 => Kind::UnrecOdd,
+    16 => Kind::Pushnum,
+    17 => Kind::Stutter,
+    _ => Kind::Odd,
+  }
+}
+
+pub fn reveal(g: &mut Gen, rng: &mut Rng, avail: &mut Vec<Avail>, model: &Model, _height: u32) -> Option<Transaction> {
+  let n_in = *rng.pick(&[1usize, 1, 1, 2, 2, 3]);
+  let inputs = g.pick_inputs(rng, avail, n_in, false);
+  if inputs.is_empty() {
+    return None;
+  }
+  let total: u64 = inputs.iter().map(|a| a.value).sum();
+  let n_out = *rng.pick(&[1usize, 1, 2, 2, 3]);
+  let fee_mode = *rng.pick(&[0u64, 1, 1, 1, 2, 3, 4]);
+  let (values, _fee) = g.split_values(rng, total, n_out, fee_mode);
+  let mut output: Vec<TxOut> = values.iter().map(|v| TxOut { value: Amount::from_sat(*v), script_pubkey: g.script(rng) }).collect();
+  if rng.chance(1, 7) {
+    let i = rng.below(output.len() as u64) as usize;
+    output[i].script_pubkey = rng.pick(&g.op_returns).clone(); // reveal straight into an OP_RETURN
+  }
+  let mut tx = g.finish(inputs.clone(), output, Vec::new());
+  let own_txid = tx.compute_txid(); // txids do not commit to witnesses
+  let total_out: u64 = tx.output.iter().map(|o| o.value.to_sat()).sum();
+  let mut output_starts = Vec::new();
+  let mut acc = 0;
+  for o in &tx.output {
+    output_starts.push(acc);
+    acc += o.value.to_sat();
+  }
+  let input_ids: Vec<InscriptionId> = inputs.iter().flat_map(|a| model.inscriptions_in(&a.outpoint)).collect();
+  let other_ids: Vec<InscriptionId> = g.extra.recent_ids.clone();
+  let mut inscribed_positions: Vec<u64> = Vec::new();
+  let mut start = 0u64;
+  for a in &inputs {
+    if let Some(out) = model.sats.utxos.get(&a.outpoint) {
+      let mut offset = 0u64;
+      for (ra, rb) in &out.ranges {
+        for (sat, _) in model.insc.by_sat.range(*ra..*rb) {
+          inscribed_positions.push(start + offset + (sat - ra));
+        }
+        offset += rb - ra;
+      }
+    }
+    start += a.value;
+  }
+  // how many envelopes per input
+  let counts: Vec<usize> = (0..inputs.len())
+    .map(|_| match rng.below(12) {
+      0 | 1 => 0,
+      2..=8 => 1,
+      9 | 10 => 2,
+      _ => 3,
+    })
+    .collect();
+  let total_envelopes: usize = counts.iter().sum();
+  let mut first_kind = None;
+  for (i, n) in counts.iter().enumerate() {
+    let mut tapscript = Vec::new();
+    // a plausible prefix: <32-byte key> OP_CHECKSIG
+    if rng.chance(2, 3) {
+      push(&mut tapscript, &[2u8; 32]);
+      tapscript.push(0xac);
+    }
+    for k in 0..*n {
+      let kind = pick_kind(rng);
+      if i == 0 && k == 0 {
+        first_kind = Some(kind.clone());
+      }
+      let ctx = EnvCtx { total_out, output_starts: &output_starts, own_txid, own_envelopes: total_envelopes as u32, input_ids: &input_ids, other_ids: &other_ids, inscribed_positions: &inscribed_positions };
+      tapscript.extend(envelope(rng, &kind, &ctx));
+      if rng.chance(1, 10) {
+        tapscript.push(0x51); // stray opcode between envelopes
+      }
+    }
+    let mut witness = Witness::new();
+    match rng.below(12) {
+      0 if *n == 0 => {} // empty witness
+      1 if *n == 0 => witness.push(rng.bytes(64)), // key-path spend
+      2 => {
+        // with annex
+        witness.push(&tapscript);
+        witness.push([0xc0u8; 33]);
+        witness.push([0x50u8, 1, 2]);
+      }
+      _ => {
+        if rng.chance(1, 3) {
+          witness.push(rng.bytes(64)); // a signature before the script
+        }
+        witness.push(&tapscript);
+        witness.push([0xc0u8; 33]);
+      }
+    }
+    tx.input[i].witness = witness;
+  }
+  assert_eq!(tx.compute_txid(), own_txid);
+  if first_kind == Some(Kind::Clean) && counts[0] > 0 {
+    g.extra.clean_first.insert(own_txid);
+  }
+  for k in 0..total_envelopes {
+    if g.extra.recent_ids.len() < 40 {
+      g.extra.recent_ids.push(InscriptionId { txid: own_txid, index: k as u32 });
+    } else {
+      let i = rng.below(40) as usize;
+      g.extra.recent_ids[i] = InscriptionId { txid: own_txid, index: k as u32 };
+    }
+  }
+  Some(tx)
+}
+
+/// A script that is only there to be non-standard: used by robustness runs.
+pub fn junk_script(rng: &mut Rng) -> ScriptBuf {
+  let n = rng.usize(0, 60);
+  ScriptBuf::from_bytes(rng.bytes(n))
 }
